@@ -17,6 +17,10 @@ namespace tapkee_internal
 __TAPKEE_IMPLEMENTATION(KernelLocalTangentSpaceAlignment)
     void validate()
     {
+        // a tangent space is spanned by eigenvectors of a num_neighbors x num_neighbors local Gram matrix
+        parameters[target_dimension].checked()
+            .satisfies(InClosedRange<IndexType>(1, static_cast<IndexType>(parameters[num_neighbors])))
+            .orThrow();
     }
 
     TapkeeOutput embed()
